@@ -54,15 +54,20 @@ def run_c08(job):
     except Exception as e:  # noqa
         return {"job": job, "setup_error": repr(e)}
     hist_out = []
+    # history entries marked `same-object` are earlier optimize() calls on the very Task OBJECT the final call uses (same seed, same everything)
+    shared = trace.build_task(dict(job, trace=False)) if any(h.get("which") == "same-object" for h in job["history"]) else None
     for h in job["history"]:
         hj = dict(job, **h)
         hj["trace"] = False
+        if h.get("which") == "same-object":
+            hj["seed"] = job["seed"]
+            hj["_task_obj"] = shared
         if h.get("raise_after") is not None:
             hj["_raise_after"] = h["raise_after"]
         r = _run_on(used, hj)
         hist_out.append("result" if "result" in r else (r.get("exception") or {}).get("type", "setup"))
     final = dict(job, trace=False)
-    u = _run_on(used, final)
+    u = _run_on(used, dict(final, _task_obj=shared) if shared is not None else final)
     f = trace.run_traced(final)
     return {"job": job, "history_outcomes": hist_out, "used": digest(u), "fresh": digest(f)}
 
